@@ -38,7 +38,7 @@ ASSUMPTIONS = [
     "a function inserted with register_insert_function makes gtirb_layout place every byte interval anew; it is exercised on its own (not combined with other modifications) and only its own alignment requirement is asserted",
 ]
 BOUNDS = {"quick": {"interval_size": 4, "blocks": 3}, "thorough": {"interval_size": 6, "blocks": 3}}
-CAP_S = {"quick": 150, "thorough": 2400}
+CAP_S = {"quick": 400, "thorough": 2400}
 
 from gtirb_rewriting._adt import OffsetMapping  # noqa: E402
 from gtirb_rewriting.intervalutils import PaddingError, join_byte_intervals, split_byte_interval  # noqa: E402
